@@ -411,7 +411,10 @@ def _coq_case(ops, prof):
         sy = sym_lookup(hit[0], hit[1])
         if sy is None:
             return I(("F", "0x%x" % hit[1], libs[hit[0]], hit[1], None, None, None, 0, None))
-        return I(("F", sy[2], libs[hit[0]], hit[1], None, None, None, 0, (libs[hit[0]], sy[0])))
+        # the thread's native-symbol row for (library, symbol address) keeps the name it was first created with - by an earlier
+        # handle_for_native_symbol call or an earlier frame - and the frame's function is named after that row
+        nm = ns_first.setdefault((th, hit[0], sy[0]), sy[2])
+        return I(("F", nm, libs[hit[0]], hit[1], None, None, None, 0, (libs[hit[0]], sy[0])))
 
     for o in ops:
         k = o[0]
